@@ -6,6 +6,7 @@ import (
 	"io"
 	"math/rand"
 	"strings"
+	"time"
 
 	"github.com/dsnet/compress/xflate"
 	"github.com/dsnet/compress/xflate/verifharness/vhlib"
@@ -25,7 +26,32 @@ type wTrace struct {
 	WritesAft []int // number of sink Write calls made after each op
 }
 
+// runWriter runs the history under a watchdog: a call that does not return within 20 s is reported
+// through Panic ("hang: ..."); the stuck goroutine is abandoned.
 func runWriter(wc wcodec, sink *faultSink, ops []wOp) (t wTrace) {
+	if writerHangs >= 2 {
+		t.Panic = "hang: skipped after two histories that did not return"
+		t.Errs = make([]error, len(ops))
+		t.Ns = make([]int, len(ops))
+		return
+	}
+	done := make(chan wTrace, 1)
+	go func() { done <- runWriter0(wc, sink, ops) }()
+	select {
+	case t = <-done:
+		return t
+	case <-time.After(20 * time.Second):
+		writerHangs++
+		t.Panic = "hang: a Writer call did not return within 20 s"
+		t.Errs = make([]error, len(ops))
+		t.Ns = make([]int, len(ops))
+		return t
+	}
+}
+
+var writerHangs int
+
+func runWriter0(wc wcodec, sink *faultSink, ops []wOp) (t wTrace) {
 	defer func() {
 		if p := recover(); p != nil {
 			t.Panic = fmt.Sprint(p)
